@@ -208,7 +208,7 @@ func run() int {
 			}
 			continue
 		}
-		if ct.Props[*prop] && !ct.Trusted && (!ct.ThoroughOnly || *tier == "thorough") {
+		if ct.Props[*prop] && !ct.Trusted && (!ct.ThoroughOnly || *tier == "thorough" || os.Getenv("GOVC_ALL_FAMILIES") != "") {
 			addFn(w.FnByKey[k], ct, false)
 		}
 	}
